@@ -1,6 +1,6 @@
 SPEC = {
     'id': 'C30', 'harness': 'hC30', 'coq_dir': 'C30',
-    'claimed': False,
+    'claimed': True,
     'theorems': ['C30_taken_is_unblocked_prefix', 'C30_count_le', 'C30_count_le_any_limits',
                  'C30_count_over_limit_adds_nothing', 'C30_count_le_unguarded_refuted',
                  'C30_size_le', 'C30_size_le_any_limits', 'C30_size_le_encoded_partial',
